@@ -44,7 +44,7 @@ theorem init_translated (d : Seat) (v : Vul) :
 theorem has_done_translated (s : AState) :
     P.runMethod n_BiddingPhase n_has_done [encState s] = .ok (.bool s.hasDone, encState s) := by
   have run : P.runMethod n_BiddingPhase n_has_done [encState s]
-      = callF (mkRec P 99999) m_BiddingPhase_has_done [encState s] := rfl
+      = callF (mkRec P 999) m_BiddingPhase_has_done [encState s] := rfl
   rw [run]
   pysimp [m_BiddingPhase_has_done, encState, beq_encOptSeat_none, AState.hasDone]
 
@@ -83,11 +83,11 @@ theorem take_bid_translated (s : AState) (c : Call) :
       | .error () => .error (.exc K.Exception)
       | .ok (s', r) => .ok (encRes r, encState s') := by
   have run : P.runMethod n_BiddingPhase n_take_bid [encState s, encCall c]
-      = ((mkRec P 99999).exec (envOf s c) m_BiddingPhase_take_bid.body >>= fun x =>
+      = ((mkRec P 999).exec (envOf s c) m_BiddingPhase_take_bid.body >>= fun x =>
           match x.2 with
           | .ret v => pure (v, (lookup x.1 K.self).getD .none)
           | _ => pure (.none, (lookup x.1 K.self).getD .none)) := rfl
-  rw [run, exec_succ, take_bid_body 99968 s c]
+  rw [run, exec_succ, take_bid_body 968 s c]
   cases h : takeBid s c with
   | error u => cases u; rfl
   | ok x => obtain ⟨s', r⟩ := x; cases r <;> rfl
@@ -126,7 +126,7 @@ returns `none` there; see `contract_translated_unreachable`). -/
 theorem contract_translated (s : AState) (h : s.contract.isSome ∨ s.active.isSome) :
     (P.runMethod n_BiddingPhase n_contract [encState s]).map (·.1) = .ok (encOpt encContract s.contract) := by
   have run : P.runMethod n_BiddingPhase n_contract [encState s]
-      = callF (mkRec P 99999) m_BiddingPhase_contract [encState s] := rfl
+      = callF (mkRec P 999) m_BiddingPhase_contract [encState s] := rfl
   rw [run]
   obtain ⟨dealer, vul, active, lastBidder, lastBid, calledX, calledXX, history, perSeat, declCheck, avail⟩ := s
   simp only [AState.contract] at h ⊢
@@ -154,7 +154,7 @@ theorem contract_translated_unreachable (s : AState) (h1 : s.active = none) (b :
     (h3 : s.lastBidder = none) :
     P.runMethod n_BiddingPhase n_contract [encState s] = .error (.exc K.AssertionError) := by
   have run : P.runMethod n_BiddingPhase n_contract [encState s]
-      = callF (mkRec P 99999) m_BiddingPhase_contract [encState s] := rfl
+      = callF (mkRec P 999) m_BiddingPhase_contract [encState s] := rfl
   rw [run]
   obtain ⟨dealer, vul, active, lastBidder, lastBid, calledX, calledXX, history, perSeat, declCheck, avail⟩ := s
   simp only at h1 h2 h3; subst h1; subst h2; subst h3
